@@ -352,7 +352,8 @@ def get_switched_peak_array_indices(values, tol=0.0):
         peak_indices_set.append(i)
 
     switched_peak_indices = np.take(peak_indices, new_peak_indices)
-    return switched_peak_indices
+    # a constant series has coincident first/last peak indices: never report an index twice
+    return np.unique(switched_peak_indices)
 
 
 def determine_pseudo_cyclic_peak_only_series(values):
